@@ -98,6 +98,69 @@ fn cap_check(it: &mut Interp, sc: &dyn Api, h: &Header) {
 /// rounds of the C03 reset loop (demand per round <= 48 records x 64 KiB, chunks at least double: 2^13 x 512 B suffices)
 const RESET_LOOP_ROUNDS: usize = 40;
 
+/// `Bump::with_settings` between two arbitrary settings types (outside the cells' where-clauses, which
+/// would pin the guaranteed-allocated parameter)
+fn convert<A, S1, S2>(bump: Bump<A, S1>) -> Bump<A, S2>
+where
+    S1: bump_scope::settings::BumpAllocatorSettings,
+    S2: bump_scope::settings::BumpAllocatorSettings,
+    A: BaseAllocator<S1::GuaranteedAllocated> + BaseAllocator<S2::GuaranteedAllocated>,
+{
+    bump.with_settings()
+}
+
+/// C18 (last clause), guaranteed-allocated half: `with_settings` to a guaranteed-allocated type panics
+/// exactly when no chunk has been allocated yet. Runs on its own arena (literal `false` -> `true`, which the
+/// cells' generic where-clauses cannot express).
+fn conv_ga<A: Handle, const UP: bool, const DE: bool, const SH: bool, const MCS: usize>(it: &mut Interp, h: &Header) {
+    use bump_scope::settings::BumpSettings;
+    let bump: Bump<A, BumpSettings<1, UP, false, true, DE, SH, MCS>> = Bump::default();
+    let touch = match h.ctor_arg % 4 {
+        0 => 0, // never used
+        1 => 1, // only zero-sized values and statistics
+        2 => 2, // a reserve(0)-style no-op? no: a real allocation
+        _ => 3, // allocated, then reset_to_start-like emptiness through a scope
+    };
+    let mut bump = bump;
+    match touch {
+        1 => {
+            let _ = bump.alloc(());
+            let _ = bump.stats().allocated();
+        }
+        2 => {
+            let _ = bump.try_alloc(5u8);
+        }
+        3 => {
+            bump.scoped(|s| {
+                let _ = s.try_alloc(5u64);
+            });
+        }
+        _ => {}
+    }
+    let unallocated = bump.stats().count() == 0;
+    it.note(|| format!("Bump::with_settings::<GUARANTEED_ALLOCATED = true>() after history {touch}; count() == 0: {unallocated}"));
+    let r = std::panic::catch_unwind(std::panic::AssertUnwindSafe(move || {
+        let b2: Bump<A, BumpSettings<1, UP, true, true, DE, SH, MCS>> = bump.with_settings();
+        let n = b2.stats().count();
+        drop(b2);
+        n
+    }));
+    match r {
+        Ok(n) => {
+            if unallocated {
+                it.fail("C18/conversion-panics", format!("with_settings to a guaranteed-allocated type succeeded on an unallocated arena (count() afterwards {n})"));
+            }
+            it.class("conversion_accepted");
+        }
+        Err(p) => {
+            if !unallocated {
+                it.fail("C18/conversion-panics", format!("with_settings to a guaranteed-allocated type panicked on an allocated arena: {}", bsv_core::runner::panic_message(&p)));
+            }
+            it.class("conversion_rejected");
+        }
+    }
+}
+
 macro_rules! top_fn {
     ($name:ident, $MA:literal) => {
         fn $name<A, const UP: bool, const GA: bool, const DE: bool, const SH: bool, const MCS: usize>(
@@ -277,6 +340,55 @@ macro_rules! top_fn {
                     it.class("reset_loop_done");
                 }
             }
+            // C18 (last clause): conversions that need an allocated / unclaimed arena panic exactly then
+            if it.conv_check == 2 && !it.stop && it.fails.is_empty() {
+                it.foreign = None;
+                it.model.kill_all();
+                it.vec = None;
+                it.cps.clear();
+                {
+                    // a forgotten claim guard leaves the arena claimed for good (safe code; the memory is leaked)
+                    let forget = it.recs.len() % 2 == 0;
+                    let had_chunks = bump.stats().count() > 0;
+                    if forget {
+                        std::mem::forget(bump.claim());
+                        if !bump.is_claimed() {
+                            it.fail("C14/claimed-flag", "is_claimed() false although the claim guard was forgotten, not dropped".to_string());
+                        }
+                        if bump.try_alloc(7u32).is_ok() {
+                            it.fail("C14/request-fails", "[claimed for good] try_alloc(7u32) succeeded".to_string());
+                        }
+                        if bump.as_mut_scope().try_by_value().is_ok() {
+                            it.fail("C14/request-fails", "[claimed for good] try_by_value() succeeded".to_string());
+                        }
+                        it.expect_leak = had_chunks;
+                    }
+                    it.note(|| format!("Bump::with_settings::<CLAIMABLE = false>() on an arena that is claimed: {forget}"));
+                    let r = std::panic::catch_unwind(std::panic::AssertUnwindSafe(move || {
+                        let b2: Bump<A, bump_scope::settings::BumpSettings<$MA, UP, GA, false, DE, SH, MCS>> = convert(bump);
+                        let ok = b2.try_alloc(1u8).is_ok();
+                        drop(b2);
+                        ok
+                    }));
+                    match r {
+                        Ok(ok) => {
+                            if forget {
+                                it.fail("C18/conversion-panics", "with_settings to a non-claimable type succeeded on a claimed arena".to_string());
+                            } else if !ok {
+                                it.fail("C18/conversion-panics", "the converted (non-claimable) arena cannot allocate".to_string());
+                            }
+                            it.class("conversion_accepted");
+                        }
+                        Err(p) => {
+                            if !forget {
+                                it.fail("C18/conversion-panics", format!("with_settings to a non-claimable type panicked on an unclaimed arena: {}", bsv_core::runner::panic_message(&p)));
+                            }
+                            it.class("conversion_rejected");
+                        }
+                    }
+                }
+                return;
+            }
             // end of case: the arena is dropped
             it.foreign = None;
             it.model.kill_all();
@@ -320,15 +432,27 @@ pub struct Cell {
     pub f: CellFn,
     pub ga: bool,
     pub home: usize,
+    /// only for cells that are not guaranteed-allocated
+    pub conv: Option<CellFn>,
+}
+
+macro_rules! conv_of {
+    ($A:ident, $H:literal, $UP:literal, false, $DE:literal, $SH:literal, $MCS:literal) => {
+        Some(conv_ga::<$A<0, $H>, $UP, $DE, $SH, $MCS> as CellFn)
+    };
+    ($A:ident, $H:literal, $UP:literal, true, $DE:literal, $SH:literal, $MCS:literal) => {
+        None
+    };
 }
 
 macro_rules! cell {
-    ($A:ident, $H:literal, $UP:literal, $GA:literal, $DE:literal, $SH:literal, $MCS:literal) => {
+    ($A:ident, $H:literal, $UP:literal, $GA:tt, $DE:literal, $SH:literal, $MCS:literal) => {
         Cell {
             name: concat!(stringify!($A), " home=", stringify!($H), " up=", stringify!($UP), " ga=", stringify!($GA), " de=", stringify!($DE), " sh=", stringify!($SH), " mcs=", stringify!($MCS)),
             f: start::<$A<0, $H>, $UP, $GA, $DE, $SH, $MCS>,
             home: $H,
             ga: $GA,
+            conv: conv_of!($A, $H, $UP, $GA, $DE, $SH, $MCS),
         }
     };
 }
@@ -572,19 +696,25 @@ impl ArenaEngine {
         it.plan_enabled = h.plan.enabled;
         it.probe_only = h.probe_only && !cell.ga && h.ctor % 8 >= 6;
         it.reset_loop = self.mix == Mix::C03 && h.ctor_arg % 16 == 3;
+        it.conv_check = if matches!(self.mix, Mix::C18 | Mix::C14) && !h.plan.enabled { [0, 0, 0, 0, 0, 1, 1, 2][(h.ctor_arg >> 5) % 8] } else { 0 };
         let po = it.probe_only;
         it.note(|| format!("cell [{}] min_align={} policy={:?} plan={:?} probe_only={}", cell.name, h.ma, h.policy, h.plan, po));
         (cell.f)(&mut it, &h);
+        if it.conv_check == 1 && !it.stop && it.fails.is_empty() {
+            if let Some(c) = cell.conv {
+                c(&mut it, &h);
+            }
+        }
         // end-of-case ledger rules (C05)
         let (live, handles, errs, mem) = with_ctx(0, |c| (c.live_grants().count(), c.handles_live, std::mem::take(&mut c.errors), c.check_memory(true)));
         for e in errs {
             let id = e.split(':').next().unwrap_or("C05/ledger").to_string();
             it.fail(&id, format!("at drop: {e}"));
         }
-        if live != 0 {
+        if live != 0 && !it.expect_leak {
             it.fail("C05/leak", format!("{live} grant(s) still outstanding after the Bump was dropped"));
         }
-        if handles != 0 {
+        if handles != 0 && !it.expect_leak {
             it.fail("C05/handle-balance", format!("{handles} base-allocator handle(s) alive after the Bump was dropped (clone/drop imbalance)"));
         }
         if let Some(m) = mem {
